@@ -58,8 +58,8 @@ QJsonObject generate()
     // the last name is so long (247 bytes) that every rotated name exceeds NAME_MAX: each rotation attempt fails as a whole
     // (rename, link and the copy fallback all get ENAMETOOLONG from the kernel, no injection involved)
     static const std::string longName = std::string(243, 'L') + ".log";
-    static const char *names[] = { "app.log", "app.log", "applog", "a+b.log", "app.log", "applog", longName.c_str() };
-    cfg["name"] = names[pick(0, 6)];
+    static const char *names[] = { "app.log", "app.log", "applog", "a+b.log", "app.log", "applog", longName.c_str(), ".app.log" };
+    cfg["name"] = names[pick(0, 7)];
     QJsonObject c;
     c["cfg"] = cfg;
     QJsonArray prefix;
